@@ -111,6 +111,15 @@ pub fn dispatch(op: &str, kind: &str, a: &mut Args) -> Option<String> {
                 _ => "NOOP".to_string(),
             }
         }
+        // ---- C03: KsTwoAsymptotic cdf / pdf (private `compute`, reached through the public cdf and pdf)
+        "hand.KsTwoAsymptotic.cdf_pdf" => {
+            use rv::traits::*;
+            let x = a.f();
+            let d = rv::dist::KsTwoAsymptotic::new();
+            let c: f64 = <rv::dist::KsTwoAsymptotic as Cdf<f64>>::cdf(&d, &x);
+            let f: f64 = <rv::dist::KsTwoAsymptotic as HasDensity<f64>>::ln_f(&d, &x).exp();
+            format!("{} {}", tok(&c), tok(&f))
+        }
         "logsumexp" => {
             let xs = a.list(|a| a.f());
             tok(&xs.iter().logsumexp())
